@@ -18,7 +18,7 @@ SHRINK = 'none'
 TIME_BUDGET = {'quick': 170, 'thorough': 1700}
 REQUIRED = {'quick': {'landed_with_items': 150, 'land:_send_result': 10, 'land:_cleanup': 5, 'pipe:supplied': 100, 'mode:kill': 40, 'land:forwarding_thread': 60, 'unpicklable_partial_result': 40,
                       'forced_terminate_of_stuck_child': 40, 'consumer_blocked_before_death': 100, 'host_vanished': 60},
-            'thorough': {'landed_with_items': 1500, 'land:_send_result': 100, 'land:_cleanup': 50}}
+            'thorough': {'landed_with_items': 600, 'land:_send_result': 40, 'land:_cleanup': 20}}
 
 
 def examples(tier):
